@@ -63,6 +63,8 @@ enum {
     F_SWEEP,
     F_OPS_ON_DUPLICATE,
     F_WIDE_MANY_CONTAINERS,
+    F_REKEY_VARIANT,
+    F_REKEY_OTHER,
     F_NFLAGS
 };
 static const char *s_flag_names[F_NFLAGS] = {
@@ -73,7 +75,8 @@ static const char *s_flag_names[F_NFLAGS] = {
     "case_variant_lookup", "object_member_removed", "array_remove_first", "array_remove_middle", "array_remove_last",
     "array_index_eq_size", "array_index_beyond_size", "absent_key_lookup", "deep_chain_ge_500", "print_buffer_grew_gt_256",
     "text_tree_duplicate_keys", "compare_duplicate_checked", "strings_with_invalid_utf8", "iterate_early_stop",
-    "sweep_case", "container_ops_on_a_duplicate", "wide_tree_ge_1000_containers"};
+    "sweep_case", "container_ops_on_a_duplicate", "wide_tree_ge_1000_containers", "duplicated_member_added_under_case_variant_key",
+    "duplicated_member_added_under_same_or_unrelated_key"};
 
 #define MAX_DEPTH 8
 #define OBJDEPTH_COMPARE_LIMIT 10 /* cJSON_Compare visits nested objects 2^depth times (see report) */
@@ -1683,8 +1686,75 @@ static int remove_member(struct mon_rng *r, struct aws_json_value *obj, const ui
     return aws_json_value_remove_from_object_c_str(obj, (const char *)key);
 }
 
+/* copy a member into a fresh object under a key of the caller's choice (same, case variant, unrelated): the new member must
+ * carry exactly the key it was added with and a value equal to the source, whatever key the duplicate had before */
+static bool serialise(struct aws_json_value *v, bool formatted, struct sbuf *out, struct mon_rng *r);
+
+static void check_rekeyed_copy(struct mon_rng *r, struct aws_json_value *lib, const struct mnode *m) {
+    if (m->kind != K_OBJ || m->n == 0) {
+        return;
+    }
+    size_t pick = (size_t)mon_below(r, m->n);
+    long at = mn_find(m, m->key[pick], m->klen[pick]); /* lookups return the first match */
+    if (at < 0) {
+        return;
+    }
+    uint8_t *st;
+    struct aws_byte_cursor kc = unterminated(m->key[pick], m->klen[pick], &st);
+    struct aws_json_value *src = aws_json_value_get_from_object(lib, kc);
+    free(st);
+    if (!src) {
+        return; /* judged by the ordinary get check */
+    }
+    struct aws_json_value *dup = aws_json_value_duplicate(src);
+    if (!dup) {
+        mon_violation("C11:duplicate-failed", "aws_json_value_duplicate of a member returned NULL");
+        return;
+    }
+    struct sbuf nk = {0};
+    sb_put(&nk, "", 0);
+    unsigned how = (unsigned)mon_below(r, 4);
+    if (how == 0) {
+        sb_put(&nk, m->key[pick], m->klen[pick]);
+    } else if (how == 3) {
+        gen_key(r, &nk);
+    } else if (!case_variant(r, m->key[pick], m->klen[pick], &nk)) {
+        how = 0; /* no letters: same key */
+    }
+    struct aws_json_value *T = aws_json_value_new_object(s_alloc);
+    if (add_member(r, T, (const uint8_t *)nk.p, nk.n, dup) != AWS_OP_SUCCESS) {
+        mon_violation("C11:object:add-refused", "adding a duplicated member to an empty object under key %s failed", mon_hex(nk.p, nk.n, 40));
+        aws_json_value_destroy(dup);
+    } else {
+        struct mnode *E = extract(T);
+        if (E->kind != K_OBJ || E->n != 1 || E->klen[0] != nk.n || memcmp(E->key[0], nk.p, nk.n)) {
+            mon_violation("C11:rekeyed-copy:key", "member %s duplicated and added to an empty object as %s (%s) is stored under %s", mon_hex(m->key[pick], m->klen[pick], 40),
+                          mon_hex(nk.p, nk.n, 40), how == 0 ? "same key" : how == 3 ? "unrelated key" : "case variant", E->n == 1 ? mon_hex(E->key[0], E->klen[0], 40) : "(no single member)");
+        } else {
+            model_cmp(m->kid[at], E->kid[0], CMP_EXACT, "rekeyed-copy");
+            struct sbuf out = {0};
+            if (serialise(T, false, &out, r)) {
+                struct rd st2;
+                struct mnode *own = strict_read(out.p, out.n, &st2);
+                if (!own || own->kind != K_OBJ || own->n != 1 || own->klen[0] != nk.n || memcmp(own->key[0], nk.p, nk.n)) {
+                    mon_violation("C11:rekeyed-copy:serialised-key", "member added as %s is serialised as %.80s", mon_hex(nk.p, nk.n, 40), out.p ? out.p : "");
+                }
+                mn_free(own);
+            }
+            sb_free(&out);
+        }
+        mn_free(E);
+        mon_flag(how == 1 || how == 2 ? F_REKEY_VARIANT : F_REKEY_OTHER);
+    }
+    aws_json_value_destroy(T);
+    sb_free(&nk);
+}
+
 /* one operation on an object against the reference (ordered association list, case-insensitive keys) */
 static void object_op(struct mon_rng *r, struct aws_json_value *lib, struct mnode *m, struct budget *bg, int depth, bool prefer_add) {
+    if (m->n && mon_chance(r, 1, 10)) {
+        check_rekeyed_copy(r, lib, m);
+    }
     unsigned pick = (unsigned)mon_below(r, 100);
     if (prefer_add && pick >= 55) {
         pick = (unsigned)mon_below(r, 55);
